@@ -189,10 +189,10 @@ func RunWorker(ch *Check, tier string, seed uint64, worker, workers, only int, o
 			ch.Run(ctx, i)
 		}()
 		res.Cases++
-		if res.Cases%8 == 0 {
-			if err := flush(); err != nil {
-				return err
-			}
+		// after every case: a later case that never returns (the watchdog ends the worker) must not take the verdicts of the
+		// finished ones with it
+		if err := flush(); err != nil {
+			return err
 		}
 	}
 	return flush()
